@@ -59,10 +59,13 @@ def request(name: str) -> Tuple[bool, str]:
         return False, f"{type(ex).__name__}: {str(ex)[:100]}"
 
 
-def loaded_now(names: Dict[int, str]) -> List[int]:
+def loaded_now(names: Dict[int, str]) -> Optional[List[int]]:
     """Which plugins of the family the group currently counts as loaded (diagnostic; private state)."""
     from metador_core.plugins import schemas
-    got = {r.name for r in getattr(schemas, "_LOADED_PLUGINS", {})}
+    table = getattr(schemas, "_LOADED_PLUGINS", None)
+    if not isinstance(table, dict):
+        return None          # not shown by this tree: only the outcomes are judged
+    got = {getattr(r, "name", None) for r in table}
     return sorted(i for i, n in names.items() if n in got)
 
 
@@ -72,7 +75,11 @@ def run_case(dep, invalid, reqs, via_parent) -> Dict[str, Any]:
     for p in reqs:
         ok, exc = request(names[p])
         evs.append({"p": p, "ok": ok, "exc": exc, "loaded": loaded_now(names)})
-    return {"dep": [[i, sorted(dep[i])] for i in sorted(dep)], "invalid": sorted(invalid), "via_parent": via_parent, "reqs": evs}
+    shown = all(e["loaded"] is not None for e in evs)
+    for e in evs:
+        e["loaded"] = e["loaded"] or []
+    return {"dep": [[i, sorted(dep[i])] for i in sorted(dep)], "invalid": sorted(invalid), "via_parent": via_parent, "reqs": evs,
+            "hasloaded": shown}
 
 
 # --------------------------------------------------------------------------------------
@@ -118,9 +125,7 @@ def part(rep, wd, quick: bool, rng: random.Random):
         cases.append((d, inv, [rng.randint(1, 4) for _ in range(6)], rng.random() < 0.5))
     traces = []
     for d, inv, reqs, vp in cases:
-        t = run_case(d, inv, reqs, vp)
-        t["hasloaded"] = True
-        traces.append(t)
+        traces.append(run_case(d, inv, reqs, vp))
     verd = common.validate_traces("Trace_PluginLoad", traces, wd, chunk=200)
     st = common.validate_traces.last_stats
     rep.states += st["states"]; rep.transitions += st["transitions"]
